@@ -1,147 +1,236 @@
-//! INTEG profile: the one integration surface the simulator executes - `solend_deposit` - so that
-//! the "at most 8 integration positions" clause of C16 (and the slot allocation of an account that
-//! mixes integration kinds) is reached by real marginfi code.
+//! INTEG profile: banks backed by the three third-party venues (Solend, Kamino, Drift) inside an
+//! ordinary market world, so that the real marginfi code for venue deposits, venue withdrawals
+//! (with their risk check), the exchange-rate-adjusted price adapters, the integration-position cap
+//! and the tag rules runs under the same monitors as everything else.
 //!
 //! What is real and what is a stub here:
-//!  * real: `marginfi::solend_deposit` (account validation, tag checks, obligation read-back,
-//!    `find_or_create` with the integration cap, share bookkeeping, `sort_balances`), the SPL-Token
-//!    transfer user -> liquidity vault, the banks themselves (created by the real `add_bank`);
-//!  * fixtures built from bytes: the Solend reserve and obligation (layouts of `solend-mocks`),
-//!    the switch of a freshly created bank to `ASSET_TAG_SOLEND` with its two integration keys
-//!    (what `solend_add_pool` + `solend_init_obligation` would leave), and - because only one venue
-//!    has a stub - a user account that already holds 5..8 positions tagged Kamino / Drift in banks
-//!    that are not simulated (a state only venue deposits can produce);
-//!  * stub: the Solend program itself (`rt::solend_stub`: exchange-rate book-keeping only).
+//!  * real: `marginfi::{solend,kamino,drift}_{deposit,withdraw}` (account validation, tag checks,
+//!    expected-amount computation and read-back, `find_or_create` with the integration cap, share
+//!    book-keeping, `sort_balances`, the withdraw's risk-engine check), the six venue price
+//!    adapters of `state/price.rs`, the SPL-Token transfers, the banks themselves (created by the
+//!    real `add_bank`, then switched by a byte patch to what `*_add_pool` + `*_init_obligation` /
+//!    `*_init_user` would leave: asset tag, oracle setup with the venue account as second oracle
+//!    key, the integration keys, no borrowing);
+//!  * fixtures built from bytes: the venues' reserve / obligation / spot-market / user accounts
+//!    and their supply token accounts (`venues.rs`), and - for a minority of holders - positions
+//!    tagged Kamino / Drift in banks that are not simulated, so that the cap of 8 integration
+//!    positions across kinds stays reachable;
+//!  * stub: the venue programs themselves (`venues.rs`: own integer arithmetic, real token
+//!    movement, staleness refusal).
+//!
+//! A venue bank shares mint and price feed with an ordinary bank of the group (as a Solend-USDC
+//! bank shares them with the USDC bank), so the ordinary oracle publisher and the oracle-fault
+//! injectors act on it too.  Holders are ordinary users' extra accounts: the market actors borrow
+//! against the venue collateral, search the borrowing boundary, get liquidated and settled.
 
 use crate::actors::Ctx;
-use crate::fixtures;
+use crate::fixtures::{self, TokenKind};
 use crate::ix::{self, BankKeys};
 use crate::model;
-use crate::rt::{marginfi_id, solend_id, Account, Tx};
+use crate::rt::{drift_id, kamino_id, marginfi_id, solend_id, Account, Tx};
 use crate::sim::{Event, Sim};
-use crate::world::{Genesis, WorldCfg};
+use crate::venues;
+use crate::world::{gen_bank_config, BankInfo, OracleKind, WorldCfg};
 use anchor_lang::prelude::Pubkey;
 use marginfi_type_crate::constants::{ASSET_TAG_DRIFT, ASSET_TAG_KAMINO, ASSET_TAG_SOLEND};
-use marginfi_type_crate::types::{Balance, Bank, MarginfiAccount};
+use marginfi_type_crate::types::{Balance, Bank, MarginfiAccount, OracleSetup};
+
+#[derive(Clone, Copy, Debug, PartialEq, Eq)]
+pub enum VKind {
+    Solend,
+    Kamino,
+    Drift,
+}
 
 #[derive(Clone, Debug)]
-pub struct SolendBank {
+pub struct VenueBank {
+    pub kind: VKind,
     pub keys: BankKeys,
     pub decimals: u8,
-    pub reserve: Pubkey,
-    pub obligation: Pubkey,
+    /// reserve (Solend, Kamino) / spot market (Drift)
+    pub acc1: Pubkey,
+    /// obligation (Solend, Kamino) / user (Drift)
+    pub acc2: Pubkey,
+    /// Drift user stats
+    pub acc3: Pubkey,
+    /// lending market (Solend, Kamino) / state (Drift)
     pub market: Pubkey,
+    /// lending market authority (Solend, Kamino) / drift signer
     pub market_auth: Pubkey,
-    pub liq_supply: Pubkey,
+    /// the venue's liquidity supply token account
+    pub supply: Pubkey,
     pub col_mint: Pubkey,
     pub col_supply: Pubkey,
     pub user_col: Pubkey,
-    pub pyth: Pubkey,
-    pub swb: Pubkey,
+    pub misc1: Pubkey,
+    pub misc2: Pubkey,
+    pub market_index: u16,
 }
 
 pub struct Integ {
-    pub banks: Vec<SolendBank>,
-    /// (authority, marginfi account, token account per solend bank index)
-    pub holders: Vec<(Pubkey, Pubkey, Vec<Pubkey>)>,
-}
-
-fn reserve_bytes(slot: u64, market: &Pubkey, mint: &Pubkey, decimals: u8, liq_supply: &Pubkey, avail: u64, col_mint: &Pubkey, col_total: u64, col_supply: &Pubkey) -> Vec<u8> {
-    let mut d = vec![0u8; solend_mocks::state::RESERVE_LEN];
-    d[0] = 1; // version byte = the "discriminator"
-    d[1..9].copy_from_slice(&slot.to_le_bytes());
-    d[9] = 0;
-    d[10..42].copy_from_slice(market.as_ref());
-    d[42..74].copy_from_slice(mint.as_ref());
-    d[74] = decimals;
-    d[75..107].copy_from_slice(liq_supply.as_ref());
-    d[171..179].copy_from_slice(&avail.to_le_bytes());
-    d[227..259].copy_from_slice(col_mint.as_ref());
-    d[259..267].copy_from_slice(&col_total.to_le_bytes());
-    d[267..299].copy_from_slice(col_supply.as_ref());
-    d
-}
-
-fn obligation_bytes(slot: u64, market: &Pubkey, owner: &Pubkey, reserve: &Pubkey, deposited: u64) -> Vec<u8> {
-    let mut d = vec![0u8; solend_mocks::state::OBLIGATION_LEN];
-    d[0] = 1;
-    d[1..9].copy_from_slice(&slot.to_le_bytes());
-    d[10..42].copy_from_slice(market.as_ref());
-    d[42..74].copy_from_slice(owner.as_ref());
-    d[202] = 1; // one deposit
-    d[203] = 0; // no borrows
-    d[204..236].copy_from_slice(reserve.as_ref());
-    d[236..244].copy_from_slice(&deposited.to_le_bytes());
-    d
+    pub banks: Vec<VenueBank>,
+    /// (user index, authority, marginfi account)
+    pub holders: Vec<(usize, Pubkey, Pubkey)>,
 }
 
 fn set(sim: &mut Sim, key: Pubkey, account: Account, why: &'static str) {
     sim.apply(Event::SetAccount { key, account: Some(account), why });
 }
 
-/// Build the Solend corner of the world.  Returns None (the run continues as a plain market run)
-/// if a bank could not be created.
+fn venue_owner(kind: VKind) -> Pubkey {
+    match kind {
+        VKind::Solend => solend_id(),
+        VKind::Kamino => kamino_id(),
+        VKind::Drift => drift_id(),
+    }
+}
+
+/// One venue bank on the mint and feed of `base`.
+fn add_venue_bank(sim: &mut Sim, ctx: &mut Ctx, gi: usize, base: &BankInfo, kind: VKind, cfg: &WorldCfg) -> Option<VenueBank> {
+    let g = ctx.world.groups[gi].clone();
+    let bank = ctx.rng.pubkey();
+    let keys = BankKeys::new(g.key, bank, base.keys.mint, base.keys.token_program);
+    let mut config = gen_bank_config(ctx.rng, cfg, base.decimals, false);
+    config.borrow_limit = 0;
+    let mut add = ix::add_bank(&keys, g.admins.admin, ctx.world.payer, ctx.world.fee_wallet, config);
+    for m in add.accounts.iter_mut() {
+        if m.pubkey == bank {
+            m.is_signer = true;
+        }
+    }
+    let out = sim.apply(Event::Tx(Tx::one("integ_setup", add)))?;
+    if !out.ok() {
+        return None;
+    }
+    let slot = sim.clock.slot;
+    let now = sim.clock.unix_timestamp.max(0) as u64;
+    let (acc1, acc2, acc3, market) = (ctx.rng.pubkey(), ctx.rng.pubkey(), ctx.rng.pubkey(), ctx.rng.pubkey());
+    let (supply, col_mint, col_supply, user_col) = (ctx.rng.pubkey(), ctx.rng.pubkey(), ctx.rng.pubkey(), ctx.rng.pubkey());
+    let mint_acc = sim.store.get(&base.keys.mint)?.clone();
+    let unit = 10u64.saturating_pow(base.decimals as u32).max(1);
+    // exchange rates: 1:1, 2 liquidity per collateral, 3 collateral per 2 liquidity, and an odd one
+    let scale = ctx.rng.range(1_000, 1_000_000).saturating_mul(unit).min(u64::MAX / 8);
+    let (num, den) = *ctx.rng.pick(&[(1u64, 1u64), (2, 1), (2, 3), (1_000_003, 999_983), (7, 5)]);
+    let avail = scale / den * num;
+    let col_total = scale;
+    let seed_deposit = 10u64;
+    let market_index = ctx.rng.range(1, 40) as u16;
+    let market_auth = match kind {
+        VKind::Solend => Pubkey::find_program_address(&[&market.to_bytes()[..32]], &solend_id()).0,
+        VKind::Kamino => Pubkey::find_program_address(&[b"lma", market.as_ref()], &kamino_id()).0,
+        VKind::Drift => Pubkey::find_program_address(&[b"drift_signer"], &drift_id()).0,
+    };
+    match kind {
+        VKind::Solend => {
+            let borrowed = if ctx.rng.chance(1, 3) { (ctx.rng.range(1, 1000) as u128) * 1_000_000_000_000_000_000u128 / 7 } else { 0 };
+            set(sim, acc1, venues::account(venues::solend_reserve_bytes(slot, &market, &base.keys.mint, base.decimals, &supply, avail, borrowed, &col_mint, col_total, &col_supply), solend_id()), "fixture_venue");
+            set(sim, acc2, venues::account(venues::solend_obligation_bytes(slot, &market, &keys.liquidity_auth, &acc1, seed_deposit), solend_id()), "fixture_venue");
+        }
+        VKind::Kamino => {
+            let borrowed = if ctx.rng.chance(1, 3) { (ctx.rng.range(1, 1000) as u128) * (1u128 << 60) / 3 } else { 0 };
+            set(sim, acc1, venues::account(venues::kamino_reserve_bytes(slot, &market, &base.keys.mint, base.decimals, &supply, avail, borrowed, &col_mint, col_total, &col_supply), kamino_id()), "fixture_venue");
+            set(sim, acc2, venues::account(venues::kamino_obligation_bytes(slot, &market, &keys.liquidity_auth, &acc1, seed_deposit), kamino_id()), "fixture_venue");
+        }
+        VKind::Drift => {
+            // cumulative interest from 1.0 upward (10^10 precision)
+            let cum = 10_000_000_000u128 + ctx.rng.range(0, 3_000_000_000) as u128;
+            set(sim, acc1, venues::account(venues::drift_market_bytes(&acc1, &base.keys.mint, &supply, base.decimals, market_index, cum, 1_000_000_000_000, now), drift_id()), "fixture_venue");
+            set(sim, acc2, venues::account(venues::drift_user_bytes(&keys.liquidity_auth, market_index, 0), drift_id()), "fixture_venue");
+            set(sim, acc3, venues::account(venues::drift_user_stats_bytes(&keys.liquidity_auth), drift_id()), "fixture_venue");
+        }
+    }
+    set(sim, supply, fixtures::token_account(&base.keys.mint, &mint_acc, &market_auth, avail.max(1_000_000_000_000)), "fixture_venue");
+    set(sim, col_supply, fixtures::token_account(&base.keys.mint, &mint_acc, &market_auth, 0), "fixture_venue");
+    for pid in [solend_id(), kamino_id(), drift_id(), marginfi::constants::FARMS_PROGRAM_ID] {
+        if sim.store.get(&pid).is_none() {
+            set(sim, pid, Account::program(), "fixture_venue");
+        }
+    }
+    // what <venue>_add_pool + init leave in the bank
+    let mut acc = sim.store.get(&bank)?.clone();
+    {
+        let b: &mut Bank = bytemuck::from_bytes_mut(&mut acc.data[8..8 + std::mem::size_of::<Bank>()]);
+        let pyth = base.oracle == OracleKind::Pyth;
+        b.config.asset_tag = match kind {
+            VKind::Solend => ASSET_TAG_SOLEND,
+            VKind::Kamino => ASSET_TAG_KAMINO,
+            VKind::Drift => ASSET_TAG_DRIFT,
+        };
+        b.config.oracle_setup = match (kind, pyth) {
+            (VKind::Solend, true) => OracleSetup::SolendPythPull,
+            (VKind::Solend, false) => OracleSetup::SolendSwitchboardPull,
+            (VKind::Kamino, true) => OracleSetup::KaminoPythPush,
+            (VKind::Kamino, false) => OracleSetup::KaminoSwitchboardPull,
+            (VKind::Drift, true) => OracleSetup::DriftPythPull,
+            (VKind::Drift, false) => OracleSetup::DriftSwitchboardPull,
+        };
+        b.config.oracle_keys[0] = base.oracle_key;
+        b.config.oracle_keys[1] = acc1;
+        b.config.borrow_limit = 0;
+        b.integration_acc_1 = acc1;
+        b.integration_acc_2 = acc2;
+        if kind == VKind::Drift {
+            b.integration_acc_3 = acc3;
+        }
+    }
+    set(sim, bank, acc, "fixture_venue_bank");
+    let _ = venue_owner(kind);
+    Some(VenueBank {
+        kind,
+        keys,
+        decimals: base.decimals,
+        acc1,
+        acc2,
+        acc3,
+        market,
+        market_auth,
+        supply,
+        col_mint,
+        col_supply,
+        user_col,
+        misc1: ctx.rng.pubkey(),
+        misc2: ctx.rng.pubkey(),
+        market_index,
+    })
+}
+
+/// Build the venue corner of the world.  Returns None (the run continues as a plain market run)
+/// if no eligible base bank exists or a bank could not be created.
 pub fn setup(sim: &mut Sim, ctx: &mut Ctx) -> Option<Integ> {
     let gi = 0usize;
     let g = ctx.world.groups.get(gi)?.clone();
     let mut cfg = WorldCfg::swarm(ctx.rng);
-    cfg.allow_t22 = false;
-    cfg.allow_fee_mints = false;
     cfg.allow_isolated = false;
-    cfg.allow_fixed = false;
-    cfg.staked = false;
-    cfg.tight_limits = false;
+    cfg.tight_limits = ctx.rng.chance(1, 4);
+    // eligible bases: SPL-Token mint, a real feed (Pyth or Switchboard), not a staked bank
+    let bases: Vec<BankInfo> = g
+        .banks
+        .iter()
+        .filter(|b| b.kind == TokenKind::Spl && b.oracle != OracleKind::Fixed && b.staked.is_none() && b.decimals <= 9)
+        .cloned()
+        .collect();
+    if bases.is_empty() {
+        return None;
+    }
     let n = ctx.rng.range(2, 4) as usize;
     let mut banks = Vec::new();
     for _ in 0..n {
-        let info = Genesis::add_bank(sim, ctx.rng, &cfg, ctx.world, g.key, gi, &g.admins).ok()?;
-        let slot = sim.clock.slot;
-        let (reserve, obligation, market, market_auth) = (ctx.rng.pubkey(), ctx.rng.pubkey(), ctx.rng.pubkey(), ctx.rng.pubkey());
-        let (liq_supply, col_mint, col_supply, user_col) = (ctx.rng.pubkey(), ctx.rng.pubkey(), ctx.rng.pubkey(), ctx.rng.pubkey());
-        // exchange rates 1:1, 2 liquidity per collateral, 3 collateral per 2 liquidity
-        let (avail, col_total) = *ctx.rng.pick(&[(1_000_000_000u64, 1_000_000_000u64), (2_000_000_000, 1_000_000_000), (1_000_000_000, 1_500_000_000)]);
-        set(
-            sim,
-            reserve,
-            Account::new(10_000_000, reserve_bytes(slot, &market, &info.keys.mint, info.decimals, &liq_supply, avail, &col_mint, col_total, &col_supply), solend_id()),
-            "fixture_solend_reserve",
-        );
-        set(
-            sim,
-            obligation,
-            Account::new(10_000_000, obligation_bytes(slot, &market, &info.keys.liquidity_auth, &reserve, 10), solend_id()),
-            "fixture_solend_obligation",
-        );
-        let mint_acc = sim.store.get(&info.keys.mint)?.clone();
-        set(sim, liq_supply, fixtures::token_account(&info.keys.mint, &mint_acc, &market_auth, avail), "fixture_solend_supply");
-        set(sim, col_supply, fixtures::token_account(&info.keys.mint, &mint_acc, &market_auth, 0), "fixture_solend_supply");
-        set(sim, solend_id(), Account::program(), "fixture_solend_program");
-        // what solend_add_pool + solend_init_obligation leave in the bank
-        let mut acc = sim.store.get(&info.keys.bank)?.clone();
-        {
-            let bank: &mut Bank = bytemuck::from_bytes_mut(&mut acc.data[8..8 + std::mem::size_of::<Bank>()]);
-            bank.config.asset_tag = ASSET_TAG_SOLEND;
-            bank.integration_acc_1 = reserve;
-            bank.integration_acc_2 = obligation;
+        let base = ctx.rng.pick(&bases).clone();
+        let kind = *ctx.rng.pick(&[VKind::Solend, VKind::Solend, VKind::Kamino, VKind::Kamino, VKind::Drift]);
+        if let Some(b) = add_venue_bank(sim, ctx, gi, &base, kind, &cfg) {
+            sim.stats.fault(match kind {
+                VKind::Solend => "integ_solend_bank_created",
+                VKind::Kamino => "integ_kamino_bank_created",
+                VKind::Drift => "integ_drift_bank_created",
+            });
+            banks.push(b);
         }
-        set(sim, info.keys.bank, acc, "fixture_solend_bank");
-        banks.push(SolendBank {
-            keys: info.keys.clone(),
-            decimals: info.decimals,
-            reserve,
-            obligation,
-            market,
-            market_auth,
-            liq_supply,
-            col_mint,
-            col_supply,
-            user_col,
-            pyth: ctx.rng.pubkey(),
-            swb: ctx.rng.pubkey(),
-        });
     }
-    // holders: fresh accounts of the first users, pre-filled with positions of the two venues
-    // that have no stub
+    if banks.is_empty() {
+        return None;
+    }
+    // holders: fresh accounts of the first users, registered with them so that the market actors
+    // use them too
     let mut holders = Vec::new();
     let n_holders = ctx.rng.range(1, 3) as usize;
     for ui in 0..n_holders.min(ctx.world.users.len()) {
@@ -157,7 +246,9 @@ pub fn setup(sim: &mut Sim, ctx: &mut Ctx) -> Option<Integ> {
         if !out.ok() {
             return None;
         }
-        let pre = *ctx.rng.pick(&[0usize, 5, 6, 7, 7, 8, 8, 8]);
+        // a minority of holders start with positions of venue banks that are not simulated: the
+        // cap of 8 integration positions is across kinds and needs more banks than a run creates
+        let pre = *ctx.rng.pick(&[0usize, 0, 0, 0, 5, 6, 7, 8]);
         if pre > 0 {
             let mut acc = sim.store.get(&ma)?.clone();
             if acc.owner != marginfi_id() {
@@ -184,67 +275,195 @@ pub fn setup(sim: &mut Sim, ctx: &mut Ctx) -> Option<Integ> {
             }
             set(sim, ma, acc, "fixture_venue_positions");
             sim.stats.fault("integ_account_prefilled_with_venue_positions");
+        } else {
+            ctx.world.users[ui].maccounts.push((gi, ma));
         }
-        let mut tas = Vec::new();
-        for b in &banks {
-            let ta = ctx.rng.pubkey();
-            let mint_acc = sim.store.get(&b.keys.mint)?.clone();
-            set(sim, ta, fixtures::token_account(&b.keys.mint, &mint_acc, &authority, 1_000_000_000_000), "fixture_token_account");
-            tas.push(ta);
-        }
-        holders.push((authority, ma, tas));
+        holders.push((ui, authority, ma));
     }
     Some(Integ { banks, holders })
 }
 
-fn refresh(sim: &mut Sim, b: &SolendBank) {
-    if let Some(mut acc) = sim.store.get(&b.reserve).cloned() {
-        let slot = sim.clock.slot;
-        acc.data[1..9].copy_from_slice(&slot.to_le_bytes());
-        set(sim, b.reserve, acc, "venue_refresh");
+/// Bring a venue's account up to date (what the client's refresh instruction does).
+fn refresh(sim: &mut Sim, ctx: &mut Ctx, b: &VenueBank) {
+    let Some(mut acc) = sim.store.get(&b.acc1).cloned() else { return };
+    match b.kind {
+        VKind::Solend => {
+            let slot = sim.clock.slot;
+            if acc.data[1..9] == slot.to_le_bytes() {
+                return;
+            }
+            acc.data[1..9].copy_from_slice(&slot.to_le_bytes());
+        }
+        VKind::Kamino => {
+            let slot = sim.clock.slot;
+            if acc.data[16..24] == slot.to_le_bytes() {
+                return;
+            }
+            acc.data[16..24].copy_from_slice(&slot.to_le_bytes());
+        }
+        VKind::Drift => {
+            let Some(v) = venues::parse_drift_market(&acc.data) else { return };
+            let now = sim.clock.unix_timestamp.max(0) as u64;
+            if v.last_interest_ts == now {
+                return;
+            }
+            let fresh = venues::drift_market_bytes(&b.acc1, &v.mint, &v.vault, v.decimals as u8, v.market_index, v.cumulative_deposit_interest, v.deposit_balance, now);
+            acc.data = fresh;
+        }
+    }
+    // the price adapters are probed after some refreshes only (C09 probes every bank after every
+    // clock advance anyway; this adds the "fresh again" verdicts)
+    let why = if ctx.rng.chance(1, 6) { "oracle_venue_refresh" } else { "venue_refresh" };
+    set(sim, b.acc1, acc, why);
+}
+
+/// The venue earns interest: its exchange rate rises (never falls).
+fn venue_interest(sim: &mut Sim, ctx: &mut Ctx, b: &VenueBank) {
+    let Some(mut acc) = sim.store.get(&b.acc1).cloned() else { return };
+    let bps = ctx.rng.range(1, 300) as u128;
+    match b.kind {
+        VKind::Solend => {
+            let Some(v) = venues::parse_solend_reserve(&acc.data) else { return };
+            let add = ((v.available as u128) * bps / 10_000).min(u64::MAX as u128 / 4) as u64;
+            let Some(a2) = v.available.checked_add(add) else { return };
+            acc.data[171..179].copy_from_slice(&a2.to_le_bytes());
+            top_up(sim, &b.supply, add);
+        }
+        VKind::Kamino => {
+            let Some(v) = venues::parse_kamino_reserve(&acc.data) else { return };
+            let add = ((v.available as u128) * bps / 10_000).min(u64::MAX as u128 / 4) as u64;
+            let Some(a2) = v.available.checked_add(add) else { return };
+            acc.data[8 + 216..8 + 224].copy_from_slice(&a2.to_le_bytes());
+            top_up(sim, &b.supply, add);
+        }
+        VKind::Drift => {
+            let Some(v) = venues::parse_drift_market(&acc.data) else { return };
+            let cum = v.cumulative_deposit_interest + v.cumulative_deposit_interest * bps / 10_000;
+            acc.data = venues::drift_market_bytes(&b.acc1, &v.mint, &v.vault, v.decimals as u8, v.market_index, cum, v.deposit_balance, v.last_interest_ts);
+            top_up(sim, &b.supply, 1_000_000_000);
+        }
+    }
+    set(sim, b.acc1, acc, "oracle_venue_interest");
+    sim.stats.fault("integ_venue_exchange_rate_rose");
+}
+
+fn top_up(sim: &mut Sim, ta: &Pubkey, add: u64) {
+    if let Some(mut acc) = sim.store.get(ta).cloned() {
+        let cur = fixtures::token_amount(&acc.data);
+        fixtures::set_token_amount(&mut acc.data, cur.saturating_add(add));
+        set(sim, *ta, acc, "fixture_venue");
     }
 }
 
-/// One step: a holder deposits into one of the Solend banks (reserve refreshed in the same slot,
-/// or - as a fault - left stale).
+fn n_active(sim: &Sim, ma: &Pubkey) -> usize {
+    model::account_of(&sim.store, ma).map(|a| a.lending_account.balances.iter().filter(|x| x.active != 0).count()).unwrap_or(0)
+}
+
+/// Before any step of an INTEG run: usually every venue is refreshed in the current slot (what a
+/// client's transaction would do first); sometimes - as a fault - one or all are left stale.
+pub fn pre_step(sim: &mut Sim, ctx: &mut Ctx, st: &Integ) {
+    match ctx.rng.below(10) {
+        0 => sim.stats.fault("integ_all_venues_left_stale"),
+        1 => {
+            let skip = ctx.rng.below(st.banks.len() as u64) as usize;
+            for (i, b) in st.banks.iter().enumerate() {
+                if i != skip {
+                    refresh(sim, ctx, b);
+                }
+            }
+            sim.stats.fault("integ_one_venue_left_stale");
+        }
+        _ => {
+            for b in st.banks.iter() {
+                refresh(sim, ctx, b);
+            }
+        }
+    }
+}
+
+/// One venue step.
 pub fn step(sim: &mut Sim, ctx: &mut Ctx, st: &Integ) {
     if st.banks.is_empty() || st.holders.is_empty() {
         return;
     }
-    if ctx.rng.chance(1, 6) {
+    if ctx.rng.chance(1, 8) {
         let dt = ctx.rng.range(1, 600) as i64;
         sim.apply(Event::Advance { dt, dslot: (dt as u64) * 2, depoch: 0 });
+        pre_step(sim, ctx, st);
     }
     let bi = ctx.rng.below(st.banks.len() as u64) as usize;
-    let b = &st.banks[bi];
-    let (authority, ma, tas) = ctx.rng.pick(&st.holders).clone();
-    if ctx.rng.chance(7, 8) {
-        refresh(sim, b);
-    } else {
-        sim.stats.fault("integ_reserve_left_stale");
-    }
-    let amount = match ctx.rng.below(6) {
-        0 => 1,
-        1 => 0,
-        _ => ctx.rng.range(2, 1_000_000),
-    };
-    let signer = if ctx.rng.chance(1, 12) { ctx.world.stranger } else { authority };
-    let i = ix::solend_deposit(b, ma, signer, tas[bi], amount);
-    let n_before = model::account_of(&sim.store, &ma)
-        .map(|a| a.lending_account.balances.iter().filter(|x| x.active != 0).count())
-        .unwrap_or(0);
-    let out = sim.apply(Event::Tx(Tx::one("integ_user", i)));
-    sim.stats.fault("integ_solend_deposit_attempted");
-    if let Some(o) = out {
-        if o.ok() {
-            let n_after = model::account_of(&sim.store, &ma)
-                .map(|a| a.lending_account.balances.iter().filter(|x| x.active != 0).count())
-                .unwrap_or(0);
-            if n_after > n_before {
-                sim.stats.fault("integ_position_opened_by_solend_deposit");
+    let b = st.banks[bi].clone();
+    let (ui, authority, ma) = *ctx.rng.pick(&st.holders);
+    let Some(ta) = ctx.world.users[ui].tokens.get(&b.keys.mint).copied() else { return };
+    let signer = if ctx.rng.chance(1, 14) { ctx.world.stranger } else { authority };
+    match ctx.rng.below(10) {
+        0 => venue_interest(sim, ctx, &b),
+        1..=5 => {
+            let amount = match ctx.rng.below(8) {
+                0 => 1,
+                1 => 0,
+                2 => ctx.rng.range(2, 50),
+                _ => ctx.rng.range(1_000, 100_000_000),
+            };
+            let i = ix::venue_deposit(&b, ma, signer, ta, amount);
+            let before = n_active(sim, &ma);
+            sim.stats.fault("integ_venue_deposit_attempted");
+            if let Some(o) = sim.apply(Event::Tx(Tx::one("integ_user", i))) {
+                if o.ok() {
+                    sim.stats.fault(match b.kind {
+                        VKind::Solend => "integ_solend_deposit_ok",
+                        VKind::Kamino => "integ_kamino_deposit_ok",
+                        VKind::Drift => "integ_drift_deposit_ok",
+                    });
+                    if n_active(sim, &ma) > before {
+                        sim.stats.fault("integ_position_opened_by_venue_deposit");
+                    }
+                } else if o.code() == Some(6212) {
+                    sim.stats.fault("integ_ninth_integration_position_refused");
+                }
             }
-        } else if o.code() == Some(6212) {
-            sim.stats.fault("integ_ninth_integration_position_refused");
         }
+        _ => {
+            // withdraw: part, all, or more than there is; collateral units for Solend / Kamino,
+            // underlying tokens for Drift
+            let Some(acc) = model::account_of(&sim.store, &ma) else { return };
+            let Some(bal) = acc.lending_account.balances.iter().find(|x| x.active != 0 && x.bank_pk == b.keys.bank).cloned() else { return };
+            let shares = crate::actors::i80(bal.asset_shares).to_num::<u64>();
+            let all = ctx.rng.chance(1, 4);
+            let cap = if b.kind == VKind::Drift {
+                // scaled balance (9 decimals) -> tokens at rate ~1
+                let f = 10u64.saturating_pow(9u32.saturating_sub(b.decimals as u32)).max(1);
+                shares / f
+            } else {
+                shares
+            };
+            let amount = if all { 0 } else { crate::actors::pick_amount(ctx.rng, cap.max(1)) };
+            let rm = crate::world::risk_metas(&sim.store, &ma, None, if all { Some(b.keys.bank) } else { None });
+            let i = ix::venue_withdraw(&b, ma, signer, ta, amount, if all { Some(true) } else { None }, rm);
+            sim.stats.fault("integ_venue_withdraw_attempted");
+            if let Some(o) = sim.apply(Event::Tx(Tx::one("integ_user", i))) {
+                if o.ok() {
+                    sim.stats.fault(match b.kind {
+                        VKind::Solend => "integ_solend_withdraw_ok",
+                        VKind::Kamino => "integ_kamino_withdraw_ok",
+                        VKind::Drift => "integ_drift_withdraw_ok",
+                    });
+                } else if o.code() == Some(6009) {
+                    sim.stats.fault("integ_venue_withdraw_refused_for_health");
+                }
+            }
+        }
+    }
+}
+
+/// A holder borrows from an ordinary bank against its venue collateral, at the boundary.
+pub fn borrow_step(sim: &mut Sim, ctx: &mut Ctx, st: &Integ) {
+    let (ui, _authority, ma) = *ctx.rng.pick(&st.holders);
+    if !ctx.world.users[ui].maccounts.iter().any(|(_, k)| *k == ma) {
+        return;
+    }
+    if let Some(mut tx) = crate::actors::borrow_boundary_for(sim, ctx, ui, 0, ma) {
+        sim.stats.fault("integ_holder_borrow_boundary");
+        crate::actors::submit(sim, ctx, &mut tx);
     }
 }
